@@ -63,6 +63,8 @@ def gen_queries(rng, root):
         else:
             cols = ["name"] + rng.sample(cols_pool[1:], rng.randint(0, 5))
             rng.shuffle(cols)
+            if rng.random() < 0.2:
+                cols = [rng.choice(["ext", "ext", "dir"])]          # one column whose value is empty for some rows (a record of a single empty field)
             tail = "from %s" % root
             if path == "ordered":
                 tail += " order by name"
@@ -157,6 +159,18 @@ def run(ctx):
                 continue
             ctx.violation("impl-violates-spec", "`into %s` output is not well-formed (decoder rejects it)" % m["fmt"], input=case)
             continue
+        if m["fmt"] == "csv" and not m["sep_clash"]:
+            # a second, independent reader (Python's csv module, strict): one record per row, also for a record of one empty field
+            import csv as _csv, io as _io
+            try:
+                prow = [list(r_) for r_ in _csv.reader(_io.StringIO(m["out"].decode("utf-8", "surrogateescape"), newline=""), strict=True)]
+            except _csv.Error as e_:
+                prow = "error: %s" % e_
+            want_ = [list(r_) for r_ in table]
+            if (sorted(prow) if m["unordered"] and isinstance(prow, list) else prow) != (sorted(want_) if m["unordered"] else want_):
+                ctx.violation("impl-violates-spec", "`into csv`: an independent CSV reader does not get the rows of `into list` back", input=case,
+                              observed=prow[:6] if isinstance(prow, list) else prow, expected=want_[:6])
+                continue
         if m["fmt"] == "json":
             rows = [[("".join(map(chr, k)), "".join(map(chr, v))) for k, v in row] for row in dec]
             got_vals = []
@@ -264,11 +278,13 @@ def run(ctx):
                               observed=str(hr)[:300], model=mo[:300], concrete=False, correspondence="harness ResultsWriter vs model.FormatGen.emit_impl")
     except Exception as e:
         ctx.notes.append("harness: fallback-binary-only (%s)" % str(e)[:200])
+        ctx.violation("correspondence-mismatch", "the real functions could not be reached through the harness (#[path] inclusion of /repo/src): %s" % str(e)[:300], input={}, concrete=False,
+                      correspondence="harness build / run")
     from .common import replay_generic_known
     replay_generic_known(ctx, 'C09')
     ctx.coverage.update(
         evaluations=st["evaluations"], distinct_nontrivial=len(st["distinct"]), traces_validated_against_impl=st["agreed"],
-        rule="directories of files with adversarial names (every ASCII punctuation, control characters 1-31 incl. TAB/LF/CR, DEL, multi-byte and astral UTF-8) x 1-6 columns x six formats x seven result paths (streamed, ordered by a unique key, ordered with ties on every key, ordered with a limit, limited, single aggregate row, grouped rows) x 0/1/many rows: each output is decoded by the Coq decoder of its format and must equal the `into list` table (multiset for grouped rows, whose order is a HashMap's), and must equal byte for byte what model.Format emits for that table; plus the real ResultsWriter (harness) on synthetic tables. non-trivial = a table containing a quote, comma, TAB, CR/LF, markup or non-ASCII/control character",
+        rule="directories of files with adversarial names (every ASCII punctuation, control characters 1-31 incl. TAB/LF/CR, DEL, multi-byte and astral UTF-8) x 1-6 columns (also a single column that is empty for some rows) x six formats x seven result paths (streamed, ordered by a unique key, ordered with ties on every key, ordered with a limit, limited, single aggregate row, grouped rows) x 0/1/many rows: each output is decoded by the Coq decoder of its format (CSV also by Python's csv module as a second reader) and must equal the `into list` table (multiset for grouped rows, whose order is a HashMap's), and must equal byte for byte what model.Format emits for that table; plus the real ResultsWriter (harness) on synthetic tables. non-trivial = a table containing a quote, comma, TAB, CR/LF, markup or non-ASCII/control character",
         samples=st["samples"], distribution=dict(st["hist"]))
     return ctx.finish(trusted=["serde_json string escaping and csv-core quoting are transcribed in model/Format.v (validated byte for byte against the binary on this run)",
                                "file names are valid UTF-8 (the generator only creates such names)"])
